@@ -101,7 +101,15 @@ fn write_te(w: &mut Vec<u8>, te: &str) {
         return;
     }
     for line in te.split('|') {
-        w.extend_from_slice(format!("Transfer-Encoding: {line}\r\n").as_bytes());
+        w.extend_from_slice(b"Transfer-Encoding: ");
+        // U+0080..U+00FF stand for the single obs-text byte of that value
+        for ch in line.chars() {
+            match ch as u32 {
+                c @ 0x80..=0xff => w.push(c as u8),
+                _ => w.extend_from_slice(ch.to_string().as_bytes()),
+            }
+        }
+        w.extend_from_slice(b"\r\n");
     }
 }
 
@@ -293,6 +301,10 @@ pub fn c03(ctx: &Ctx) -> Report {
         Some("unchunked"),
         Some("identity, X-Chunked"),
         Some("chunked-v2"),
+        // obs-text inside a quoted parameter of an earlier coding, on the same line and on a line of its own
+        Some("x-foo;note=\"caf\u{e9}\", chunked"),
+        Some("x-foo;note=\"caf\u{e9}\"|chunked"),
+        Some("x-foo;note=\"caf\u{e9}\""),
         // no Transfer-Encoding at all: a *Content*-Encoding that says chunked is not a framing
         Some("CE=chunked"),
         Some("CE=identity, Chunked"),
